@@ -164,6 +164,9 @@ FEECFG_MODELS = [
 BKR_MODELS = [
     {"name": "bkr", "module": "MC_Bkr.tla", "cfg": {"quick": "MC_BkrQuick.cfg", "thorough": "MC_BkrThorough.cfg"},
      "setup": "setups/riskmodel.json", "init_from_setup": True, "timeout": {"quick": 900, "thorough": 10000}},
+    # the sole lender lent exactly what the bankrupt account owes: the write-off shuts the bank; every operational state asked for afterwards
+    {"name": "bkrkill", "module": "MC_Bkr.tla", "cfg": {"quick": "MC_BkrKillQuick.cfg", "thorough": "MC_BkrKillThorough.cfg"},
+     "setup": "setups/bkrkill.json", "init_from_setup": True, "timeout": {"quick": 900, "thorough": 10000}},
 ]
 
 
